@@ -235,6 +235,17 @@ class OptimiserAnchors:
                     o = self.tr.origin(st['rv']['a'])
                     if o['o'] == 'call' and o['term'] is self.decision and o['p']:
                         kept.add(st['place']['l'])
+        # ... directly or through the temporaries of a `match` (`tmp = payload; score_current = move tmp`)
+        for _ in range(6):
+            grew = False
+            for bb in b.blocks:
+                for st in bb['stmts']:
+                    if st['s'] == 'assign' and st['rv']['r'] == 'use' and 'l' in st['rv']['a'] and not st['place']['p'] and \
+                            not st['rv']['a']['p'] and st['rv']['a']['l'] in kept and st['place']['l'] not in kept:
+                        kept.add(st['place']['l'])
+                        grew = True
+            if not grew:
+                break
         floats = [(nm, op) for nm, op in entries if op.get('ty') == 'f64' and nm not in new]
         old = [nm for nm, op in floats if 'l' in op and self.arg_local(op) in kept]
         if len(new) == 1 and len(old) == 1:
